@@ -35,9 +35,12 @@ def gen_case(rng, tier, avoid):
     used = set()
     nfr = rng.choice([1, 1, 2])
     rows = rng.choice([1, 2, 3, 5, 8, 13, 21, rng.randint(1, 64)])
-    for _ in range(nfr):
-        gen.frame_block(spec, lfi, rng, rows=rows if rng.random() < 0.7 else None, used=used,
-                        max_width=rng.choice([4, 12, 48]), index=rng.random() < 0.3)
+    own_sets = nfr > 1 and rng.random() < 0.4
+    fused = set()
+    for k in range(nfr):
+        gen.frame_block(spec, lfi, rng, rows=rows if rng.random() < 0.7 else None, used=set() if own_sets else used,
+                        max_width=rng.choice([4, 12, 48]), index=rng.random() < 0.3, set_name='FS%d' % k if own_sets else None,
+                        frame_used=fused)
     # special values and casts
     for op in spec.ops:
         if op.get('op') == 'add' and op['kind'] == 'channel':
@@ -52,7 +55,7 @@ def gen_case(rng, tier, avoid):
                 rc['vals'] = [sp[(i * 7 + rng.randrange(len(sp))) % len(sp)] for i in range(n)]
                 rc.pop('seed', None)
             if rng.random() < 0.15:
-                op['kwargs']['cast_dtype'] = {'$dtype': gen.pick(rng, SAFE_CASTS[dt])}
+                op['kwargs']['cast_dtype'] = gen.cast_literal(rng, gen.pick(rng, SAFE_CASTS[dt]))
     kind = gen.pick(rng, ['inline', 'inline', 'dict', 'struct', 'h5'])
     ops, data = spec.ops, None
     if kind != 'inline':
@@ -65,7 +68,7 @@ def gen_case(rng, tier, avoid):
     if data:
         w1['data'] = data
     writes = [w1]
-    if rng.random() < 0.3 and kind in ('dict', 'inline'):
+    if rng.random() < 0.3 and kind in ('dict', 'inline') and not own_sets:
         # second write with other data (same widths; other dtype unless the persisted-cast finding is avoided)
         chans = [(op['name'], op['kwargs'].get('dataset_name'), (op['kwargs'].get('data') or {}).get('$arr'))
                  for op in ops if op.get('op') == 'add' and op['kind'] == 'channel']
